@@ -40,7 +40,18 @@ def make_experiments(d, seed):
         os.makedirs(os.path.join(d, "alt"), exist_ok=True)
         sw2.write_bam(os.path.join(d, "alt", "short.bam"))
     w.write_fasta(os.path.join(d, "g.fa"))
-    w.write_gtf(os.path.join(d, "a.gtf"))
+    # part of the reference carries IsoQuant-style ids (an extended annotation of an earlier run fed back): the numbers reserved on one
+    # sequence while one experiment is processed must not influence the ids another experiment gives out
+    id_map = {}
+    n = 0
+    for g in w.genes:
+        if g.chrom in (w.chrom_order[0], w.chrom_order[-1]) and g.transcripts and len(id_map) < 40:
+            n += 1
+            id_map[g.id] = "novel_gene_%s_%d" % (g.chrom, n)
+            for t in g.transcripts:
+                n += 1
+                id_map[t.id] = "transcript%d.%s.nnic" % (n, g.chrom)
+    w.write_gtf(os.path.join(d, "a.gtf"), id_map=id_map)
     reads = [r for r in w.reads]
     # one read -> group table for all experiments (sequences run with --read_group file:...): experiments that share read ids (A and B share a
     # third of their reads, A2 is a copy of A) each look their own reads up in it
